@@ -54,6 +54,10 @@ type CaseC10 struct {
 	PerCall    [][]H10    `json:"percall,omitempty"`    // one WithCallbacks option per entry
 	Designated []D10      `json:"designated,omitempty"` // handlers designated to lambda nodes (several options may name the same node)
 	Release    []int      `json:"release,omitempty"`    // order in which gated bodies are released
+	// OneArray: the caller keeps all handlers of the call in ONE array and passes sub-slices of it to the options
+	// (first option, then the designated ones, then the other options): every slice has spare capacity that
+	// belongs to its neighbours
+	OneArray bool `json:"onearray,omitempty"`
 }
 
 type ev10 struct {
@@ -204,6 +208,7 @@ func genC10(t *rapid.T) CaseC10 {
 	for i := 0; i < 8; i++ {
 		c.Release = append(c.Release, rapid.IntRange(0, 7).Draw(t, "rel"))
 	}
+	c.OneArray = rapid.IntRange(0, 2).Draw(t, "oneArray") == 0
 	return c
 }
 
@@ -249,11 +254,11 @@ func checkC10(c CaseC10) (*vkit.Failure, vkit.Meta) {
 			}
 		}
 		perCallCount := 0
+		perCallLists := make([][]callbacks.Handler, len(c.PerCall))
 		for oi, hs := range c.PerCall {
-			var list []callbacks.Handler
 			for hi, d := range hs {
 				id := fmt.Sprintf("P%d.%d", oi, hi)
-				list = append(list, mkHandler(id, d, rec))
+				perCallLists[oi] = append(perCallLists[oi], mkHandler(id, d, rec))
 				perCallCount++
 				if d.Partial {
 					partialIDs[id] = true
@@ -261,9 +266,10 @@ func checkC10(c CaseC10) (*vkit.Failure, vkit.Meta) {
 					fullUndesignated = append(fullUndesignated, id)
 				}
 			}
-			opts = append(opts, compose.WithCallbacks(list...))
 		}
 		designated := map[string]map[string]bool{} // handler id -> tags
+		desHandlers := make([]callbacks.Handler, len(c.Designated))
+		desPaths := make([][]*compose.NodePath, len(c.Designated))
 		for i, d := range c.Designated {
 			id := fmt.Sprintf("D%d", i)
 			designated[id] = map[string]bool{d.Tag: true}
@@ -272,7 +278,48 @@ func checkC10(c CaseC10) (*vkit.Failure, vkit.Meta) {
 				designated[id][d.Tag2] = true
 				paths = append(paths, compose.NewNodePath(strings.Split(d.Tag2, "/")...))
 			}
-			opts = append(opts, compose.WithCallbacks(mkHandler(id, d.H, rec)).DesignateNodeWithPath(paths...))
+			desHandlers[i], desPaths[i] = mkHandler(id, d.H, rec), paths
+		}
+		if c.OneArray {
+			m.Labels = append(m.Labels, "handlers-passed-as-sub-slices-of-one-array")
+			var all []callbacks.Handler
+			type span struct{ lo, hi int }
+			pc := make([]span, len(perCallLists))
+			ds := make([]span, len(desHandlers))
+			put := func(hs ...callbacks.Handler) span {
+				lo := len(all)
+				all = append(all, hs...)
+				return span{lo, len(all)}
+			}
+			for oi := range perCallLists {
+				if oi == 0 {
+					pc[oi] = put(perCallLists[oi]...)
+					for i := range desHandlers {
+						ds[i] = put(desHandlers[i])
+					}
+					continue
+				}
+				pc[oi] = put(perCallLists[oi]...)
+			}
+			if len(perCallLists) == 0 {
+				for i := range desHandlers {
+					ds[i] = put(desHandlers[i])
+				}
+			}
+			all = append(all, nil)[:len(all)] // the array itself has room to spare too
+			for oi := range perCallLists {
+				opts = append(opts, compose.WithCallbacks(all[pc[oi].lo:pc[oi].hi]...))
+			}
+			for i := range desHandlers {
+				opts = append(opts, compose.WithCallbacks(all[ds[i].lo:ds[i].hi]...).DesignateNodeWithPath(desPaths[i]...))
+			}
+		} else {
+			for oi := range perCallLists {
+				opts = append(opts, compose.WithCallbacks(perCallLists[oi]...))
+			}
+			for i := range desHandlers {
+				opts = append(opts, compose.WithCallbacks(desHandlers[i]).DesignateNodeWithPath(desPaths[i]...))
+			}
 		}
 		env := gkit.NewEnv("c10")
 		env.MaxRunsPerNode = 400
